@@ -18,6 +18,8 @@ def run_standard(chk, spec, replay=None):
     if ok:
         problems = chk.audit(spec["props_file"])
         proof_broken.extend(problems)
+        for extra in spec.get("extra_props_files", []):
+            proof_broken.extend(chk.audit(extra))
     # 4. harness
     hbin = spec.get("harness_bin", "vharness")
     hok, hout = chk.build_harness(bin=hbin)
